@@ -52,4 +52,10 @@ var trSpecs = []trSpec{
 	{name: "getWeightedSentinel", file: "vm/embedded/implementation/sentinel.go", fn: "getWeightedSentinel"},
 	{name: "rewardHistoryFirstEpoch", file: "rpc/api/embedded/shared.go", fn: "getFrontierRewardByPage", from: "epoch := lastEpoch.LastEpoch", n: 1, expr: "lastEpoch.LastEpoch - int64(pageIndex)*int64(pageSize)",
 		ins: []trIn{{"lastEpoch.LastEpoch", "int64", "lastEpoch"}, {"pageIndex", "uint32", "pageIndex"}, {"pageSize", "uint32", "pageSize"}}},
+	// ---- round 6: loops, tables, fragments of larger functions ----
+	// C12 — PoW comparison (downward loop over 8 bytes)
+	{name: "greaterDifficulty", file: "pow/pow.go", fn: "greaterDifficulty"},
+	// C11 — emission tables
+	{name: "NetworkZnnRewardPerEpoch", file: "vm/constants/embedded.go", fn: "NetworkZnnRewardPerEpoch"},
+	{name: "NetworkQsrRewardPerEpoch", file: "vm/constants/embedded.go", fn: "NetworkQsrRewardPerEpoch"},
 }
